@@ -26,7 +26,10 @@ CFGS = [(v, p, lm, q) for v in (0, 1) for p in (True, False) for lm in (1, 2) fo
 
 
 def attrs(msg):
-    return R.public_attrs(msg) if msg is not None else None
+    """Everything a caller can see of a decoded message: attributes, string form, serialised bytes."""
+    if msg is None:
+        return None
+    return (R.public_attrs(msg), str(msg), msg.serialize(), msg.identity)
 
 
 def judge(case):
@@ -106,9 +109,9 @@ def judge(case):
                         out.bad("parsed-off-changes-frames",
                                 f"{case['name']} validate={v} labelmsm={lm} q={q}: raw sequences differ")
     _int_flags(case, source, results, out)
-    _rawio(case, source, results, out)
+    _rawio(case, source, results, out, bounds)
     _interleaved(case, source, results, out)
-    _seekable(case, source, results, out)
+    _seekable(case, source, results, out, bounds)
     out.states = len({e[1] if e[0] != "pair" else e[2] for _k, (_p, rec) in results.items()
                       for e in rec["events"]})
     out.nontrivial = not all_valid or any(i["kind"] == "skip" for i in its)
@@ -134,76 +137,88 @@ def _int_flags(case, source, results, out):
             break
 
 
-def _rawio(case, source, results, out):
+def _drive(make_stream, position, key, case, out, label, n):
+    """One reader over a stream of the given kind -> [(start, end, raw)] by the stream's OWN cursor."""
+    from pyrtcm import RTCMReader  # pylint: disable=import-outside-toplevel
+
+    lib = H.lib_exceptions()
+    v, p, lm, q = key
+    stream = make_stream()
+    rdr = RTCMReader(stream, validate=v, quitonerror=q, parsed=p, labelmsm=lm,
+                     errorhandler=lambda e: None)
+    got = []
+    for _ in range(n + 8):
+        try:
+            raw, msg = rdr.read()
+        except lib:
+            continue
+        except Exception as err:  # pylint: disable=broad-except
+            out.bad("reader-breaks", f"{case['name']} {key} ({label}): {type(err).__name__}: {err}")
+            return None
+        if raw is None and msg is None:
+            break
+        got.append((position(stream) - len(raw), position(stream), raw))
+    out.transitions += len(got) + 1
+    return got
+
+
+def _cross(case, bounds, runs, out, label):
+    """
+    Differential oracle WITHIN one stream kind (so that anything the kind itself does, whatever the
+    options, is not attributed to an option): the run with validation off and parsing on takes every
+    frame; every other configuration must take the same bytes for each frame it delivers, deliver
+    all of them when it does not validate, and exactly the undamaged ones when it does.
+    """
+    base_key = (0, True, 1, 0)
+    base = runs.get(base_key)
+    if base is None:
+        return
+    kinds = None
+    if len(base) == len(bounds) and all((a, b) == (x, y) for (a, b, _r), (x, y, _i) in zip(base, bounds)):
+        kinds = {(a, b): i["kind"] for a, b, i in bounds}
+    for key, got in runs.items():
+        if got is None or key == base_key:
+            continue
+        v, p, lm, q = key
+        name = (f"{case['name']}: reader(validate={v}, parsed={p}, labelmsm={lm}, quitonerror={q}) over "
+                f"{label}")
+        if v == 0 or not p:
+            want = base
+        elif kinds is not None:
+            want = [x for x in base if kinds[(x[0], x[1])] == "frame"]
+        else:
+            it = iter(base)  # at least a subsequence of what the permissive reader took
+            if all(any(x == y for y in it) for x in got):
+                continue
+            want = base
+        if got != want:
+            out.bad("option-changes-bytes-taken",
+                    f"{name} leaves the stream at {[(a, b) for a, b, _ in got]} after each frame, "
+                    f"reader(validate=0, parsed=True) over the same kind of stream at "
+                    f"{[(a, b) for a, b, _ in base]}")
+            return
+
+
+def _rawio(case, source, results, out, bounds):
     """
     The caller's own unbuffered stream (an io.RawIOBase): after every read() the position of THAT
-    stream must be the end of the frame just returned, whatever the options are.
+    stream must not depend on the options.
     """
-    from pyrtcm import RTCMReader  # pylint: disable=import-outside-toplevel
     from mc.doubles import DribbleRaw  # pylint: disable=import-outside-toplevel
 
-    lib = H.lib_exceptions()
-    for key in CFGS:
-        v, p, lm, q = key
-        if lm != 1:
-            continue
-        raw_stream = DribbleRaw(source, 1 << 20)
-        rdr = RTCMReader(raw_stream, validate=v, quitonerror=q, parsed=p, labelmsm=lm,
-                         errorhandler=lambda e: None)
-        got = []
-        for _ in range(len(source) + 8):
-            try:
-                raw, msg = rdr.read()
-            except lib:
-                continue
-            except Exception as err:  # pylint: disable=broad-except
-                out.bad("reader-breaks", f"{case['name']} {key} (RawIOBase): {type(err).__name__}: {err}")
-                break
-            if raw is None and msg is None:
-                break
-            got.append((raw_stream.pos - len(raw), raw_stream.pos, raw))
-        alone = [(a, b, r) for a, b, r, _m in results[key][0]]
-        out.transitions += len(got) + 1
-        if got != alone:
-            out.bad("stream-kind-changes-frames",
-                    f"{case['name']}: reader(validate={v}, parsed={p}, quitonerror={q}) over the caller's "
-                    f"unbuffered RawIOBase stream leaves it at {[(a, b) for a, b, _ in got]} after each frame, "
-                    f"a plain stream at {[(a, b) for a, b, _ in alone]}")
-            break
+    runs = {key: _drive(lambda: DribbleRaw(source, 1 << 20), lambda s: s.pos, key, case, out,
+                        "RawIOBase", len(source)) for key in CFGS if key[2] == 1}
+    _cross(case, bounds, runs, out, "the caller's unbuffered RawIOBase stream")
 
 
-def _seekable(case, source, results, out):
-    """The same stream as a seekable io.BytesIO: the stream kind must not change what is taken."""
+def _seekable(case, source, results, out, bounds):
+    """The same stream as a seekable io.BytesIO."""
     import io  # pylint: disable=import-outside-toplevel
 
-    from pyrtcm import RTCMReader  # pylint: disable=import-outside-toplevel
-
-    lib = H.lib_exceptions()
-    for key in CFGS:
-        v, p, lm, q = key
-        stream = io.BytesIO(source)
-        rdr = RTCMReader(stream, validate=v, quitonerror=q, parsed=p, labelmsm=lm,
-                         errorhandler=lambda e: None)
-        got = []
-        for _ in range(len(source) + 8):
-            try:
-                raw, msg = rdr.read()
-            except lib:
-                continue
-            except Exception as err:  # pylint: disable=broad-except
-                out.bad("reader-breaks", f"{case['name']} {key} (BytesIO): {type(err).__name__}: {err}")
-                break
-            if raw is None and msg is None:
-                break
-            got.append((stream.tell() - len(raw), stream.tell(), raw))
-        alone = [(a, b, r) for a, b, r, _m in results[key][0]]
-        out.transitions += len(got) + 1
-        if got != alone:
-            out.bad("stream-kind-changes-frames",
-                    f"{case['name']}: reader(validate={v}, parsed={p}, labelmsm={lm}, quitonerror={q}) "
-                    f"takes {[(a, b) for a, b, _ in got]} from a seekable BytesIO but "
-                    f"{[(a, b) for a, b, _ in alone]} from a plain stream of the same bytes")
-            break
+    runs = {key: _drive(lambda: io.BytesIO(source), lambda s: s.tell(), key, case, out, "BytesIO",
+                        len(source))
+            for key in CFGS}
+    _cross(case, bounds, runs, out, "a seekable BytesIO")
 
 
 def _interleaved(case, source, results, out):
